@@ -30,12 +30,13 @@ TRUSTED = [
     'uuid.uuid4() enters generate_uuid as its 128-bit integer (any value below 2^128 in the theorem)',
 ]
 ASSUMPTIONS = [
+    'the digit limit is a parameter of the model (lim); cases run the implementation under int_max_str_digits = 640, 0 and the default 4300',
     'str.lower() final-sigma rule is not in Base/Str.py_lower; no C14 outcome depends on it (the words and hex digits contain no sigma)',
     'exception messages are not modelled (class only); `name`/`msg`/`acceptable` are message-only',
 ]
 RULE = ('documented bool words x every per-letter casing x padding from the whitespace table x one-edit near-misses (incl. fold-sensitive '
         'code points) x strict x default; non-str subjects; integers at min-1,min,max,max+1 in int and str form with signs, padding, '
-        'underscores, non-ASCII digits, floats, None, bytes, 4300/4301-digit values; strings of length min-1..max+1; hex strings of '
+        'underscores, non-ASCII digits, floats, None, bytes; 640/641-digit values under int_max_str_digits 640 and 0, 4300/4301-digit values under the default; strings of length min-1..max+1; hex strings of '
         'length 30..34 in every decoration, decorations in odd places, int()-only spellings (0x, _, Unicode digits); generate_uuid for '
         'rng-chosen 128-bit values; sweeps of int()/lower()/strip() over code points; distinct = distinct case JSON; trivial = none')
 
@@ -257,6 +258,11 @@ def uuid_cases(rng, tier):
 def gen_cases(rng, tier):
     quick = tier == 'quick'
     # --- bool_from_string / is_valid_boolstr / int_from_bool_as_string
+    for k, v in enumerate(bool_subjects(rng, tier)):
+        strict = rng.random() < 0.5
+        yield {'op': 'bfs', 'v': v, 'strict': strict, 'default': rng.choice(DEFAULTS), 'kw': rng.random() < 0.8}
+        if k % 2 == 0: yield {'op': 'ivb', 'v': v}
+        if k % 5 == 0: yield {'op': 'ifb', 'v': v}
     for v in HUGE:
         for lim in (LOWLIM, 0):
             for strict in (False, True):
@@ -264,11 +270,6 @@ def gen_cases(rng, tier):
             yield {'op': 'ivb', 'v': v, 'lim': lim}
             yield {'op': 'ifb', 'v': v, 'lim': lim}
     yield {'op': 'bfs', 'v': I(BIG * 10), 'strict': False, 'default': B(False), 'kw': True}
-    for k, v in enumerate(bool_subjects(rng, tier)):
-        strict = rng.random() < 0.5
-        yield {'op': 'bfs', 'v': v, 'strict': strict, 'default': rng.choice(DEFAULTS), 'kw': rng.random() < 0.8}
-        if k % 2 == 0: yield {'op': 'ivb', 'v': v}
-        if k % 5 == 0: yield {'op': 'ifb', 'v': v}
     # --- is_int_like / validate_integer
     for v in INT_ODD:
         yield {'op': 'iil', 'v': v}
@@ -444,7 +445,18 @@ def _oracle(c, io):
                 if fold_ambiguous(core): return None
                 low = ascii_lower(core)
                 want = 'True' if low in DOC_TRUE else 'False' if low in DOC_FALSE else otherwise
-        if io != want: return 'bool_from_string(%r, strict=%r, default=%r) gives %s, the documented words give %s' % (show(v), c['strict'], to_py(c['default']), io, want)
+        if io != want: return 'bool_from_string(%s, strict=%r, default=%r) gives %s, the documented words give %s' % (show(v), c['strict'], to_py(c['default']), io, want)
+    elif op == 'ifb':
+        v = to_py(c['v'])
+        if isinstance(v, bool): want = '1' if v else '0'
+        else:
+            t = text_of(v)
+            if t is None: want = '0'
+            else:
+                core = t.strip()
+                if fold_ambiguous(core): return None
+                want = '1' if ascii_lower(core) in DOC_TRUE else '0'
+        if io != want: return 'int_from_bool_as_string(%s) gives %s, the documented words give %s' % (show(v), io, want)
     elif op == 'ivb':
         v = to_py(c['v'])
         t = text_of(v)
@@ -513,7 +525,7 @@ def zone(c):
     V = c.get('v')
     if op == 'iil' and V and V['t'] == 'f' and V['v'] in ('inf', '-inf'): return 'INF'
     L = lim_of(c)
-    if L > 0 and V and op in ('bfs', 'ivb', 'iil', 'ifb'):
+    if L > 0 and V and op in ('bfs', 'ivb', 'iil', 'ifb'):      # (ifb: int(bool_from_string(10**4300)) raises too)
         if V['t'] == 'i' and _declen(int(V['v'], 16)) > L: return 'MAXDIGITS'
         if V['t'] == 's' and sum(1 for ch in V['v'] if ch.isdecimal()) > L: return 'MAXDIGITS'
     return None
@@ -543,7 +555,6 @@ def extra_checks(rng, tier):
             if U_.is_uuid_like(s) is not True or len(s) != (36 if d else 32): bad = s
     yield 'uuid4-draws', {'op': 'gen', 'bits': '0', 'dashed': True}, (None if bad is None else 'generate_uuid produced %r which is_uuid_like rejects' % bad)
 
-SWEEP = None
 def sweep_cases(tier):
     """int()/lower()/strip() of the model against CPython for code points (all of them in the thorough tier)"""
     pts = [c for c in range(0x110000) if not (0xD800 <= c <= 0xDFFF)]
@@ -564,9 +575,27 @@ def sweep_cases(tier):
 _gen_cases_main = gen_cases
 def gen_cases(rng, tier):
     yield from _gen_cases_main(rng, tier)
+    yield from table_cases(rng)
     yield from sweep_cases(tier)
 
+def impl_words():
+    try:
+        S_, _ = _su()
+        return [w for w in tuple(S_.TRUE_STRINGS) + tuple(S_.FALSE_STRINGS) if isinstance(w, str)]
+    except Exception:
+        return []
+
+def table_cases(rng):
+    """every entry of the implementation's word tuples (whatever they are now), as a subject"""
+    for w in impl_words():
+        for s in (w, w.upper(), ' ' + w + '\t'):
+            for strict in (False, True):
+                yield {'op': 'bfs', 'v': S(s), 'strict': strict, 'default': NONE, 'kw': True}
+            yield {'op': 'ivb', 'v': S(s)}
+            yield {'op': 'ifb', 'v': S(s)}
+
 def search(rng, budget):
+    yield from table_cases(rng)
     for _ in range(budget):
         yield from _gen_cases_main(rng, 'quick')
 
